@@ -1106,7 +1106,9 @@ class Interp(object):
                     out.append((s1, b))
         return out
 
-    def x_FunctionDef(self, st, eid, node, cls=None):
+    def x_FunctionDef(self, st, eid, node, cls=None, closure_env=None):
+        # closure_env: scope the body closes over when it differs from the scope the name is bound in
+        # (methods: the name is bound in the class namespace, the body sees the enclosing scope only)
         if node.decorator_list:
             # decorators are applied by calling them
             pass
@@ -1127,7 +1129,7 @@ class Interp(object):
                 s, v = r[0]
                 kwdefaults[a.arg] = v
         s = s.fork()
-        f = ClosureV(node, eid, next(_counter), cls, tuple(defaults), kwdefaults)
+        f = ClosureV(node, eid if closure_env is None else closure_env, next(_counter), cls, tuple(defaults), kwdefaults)
         val = f
         for dec in reversed(node.decorator_list):
             r = self.eval(s, eid, dec)
@@ -1163,7 +1165,7 @@ class Interp(object):
                 continue
             try:
                 if isinstance(stmt, ast.FunctionDef):
-                    outs = self.x_FunctionDef(s, ceid, stmt, cls)
+                    outs = self.x_FunctionDef(s, ceid, stmt, cls, closure_env=eid)
                 else:
                     outs = self.exec_stmt(s, ceid, stmt)
             except Unsupported as e:
